@@ -88,3 +88,38 @@ def random_strings(rnd, n):
             b.append(rnd.choice(BND) if rnd.random() < 0.5 else rnd.getrandbits(8))
         out.append(bytes(b[:rnd.randint(max(1, len(b) - 6), 15)]) if rnd.random() < 0.2 else bytes(b[:15]))
     return out
+
+
+def stratified(hexes, rnd, n):
+    """a sample of about n strings that covers every stratum (prefix bytes, opcode map, ModRM mod and rm, SIB base) of the
+    string set: the byte after the opcode is read as ModRM whether or not the opcode has one (a stratification, not a decode)"""
+    strata = {}
+    for h in hexes:
+        b = bytes.fromhex(h)
+        i = 0
+        while i < len(b) and b[i] in PFX:
+            i += 1
+        pfx = b[:i]
+        mp = 0
+        if i < len(b) and b[i] == 0x0F:
+            mp, i = 1, i + 1
+            if i < len(b) and b[i] in (0x38, 0x3A):
+                mp, i = b[i], i + 1
+        i += 1
+        key = (pfx, mp)
+        if i < len(b):
+            m = b[i]
+            key += (m >> 6, m & 7)
+            if (m >> 6) != 3 and (m & 7) == 4 and i + 1 < len(b):
+                key += (b[i + 1] & 7,)
+        strata.setdefault(key, []).append(h)
+    keys = sorted(strata)
+    per = max(1, n // max(1, len(keys)))
+    out = []
+    for k in keys:
+        g = strata[k]
+        out += g if len(g) <= per else rnd.sample(g, per)
+    if len(out) < n:
+        rest = sorted(set(hexes) - set(out))
+        out += rnd.sample(rest, min(len(rest), n - len(out)))
+    return sorted(out)
